@@ -475,7 +475,34 @@ class Gen:
         optok = K(text) if text.isalpha() else O(text)
         return lt + [optok] + rt, [h, nf[1], le, re_]
 
+    CHAIN_GROUPS = [[("+", "bin", "Add"), ("-", "bin", "Sub")], [("*", "bin", "Mul"), ("/", "bin", "Div")],
+                    [("AND", "cmp", "And")], [("OR", "cmp", "Or")], [("XOR", "cmp", "Xor")]]
+
+    def long_chain(self, names):
+        """x0 + x1 - x2 + ... without parentheses: a flat chain of operators of one precedence level, 20 to 150
+        operands long; Annex B makes it a left-leaning tree of that depth."""
+        n = self.pick([20, 33, 64, 65, 66, 67, 80, 100, 128, 129, 150])
+        group = self.pick(self.CHAIN_GROUPS)
+        toks, nf = None, None
+        for i in range(n):
+            if self.chance(0.7):
+                nm = self.pick(names)
+                ot, onf = [I(nm)], ["name", nm.lower()]
+            else:
+                v = self.rng.randint(0, 99)
+                ot, onf = [L(str(v))], ["int", v, None]
+            if toks is None:
+                toks, nf = ot, onf
+            else:
+                t, k, o = self.pick(group)
+                toks = toks + [K(t) if t.isalpha() else O(t)] + ot
+                nf = [k, o, nf, onf]
+        return toks, nf
+
     def expr(self, depth, names):
+        if depth > 0 and self.ok("expr.long-chain") and self.chance(0.012):
+            self.atom("expr.long-chain")
+            return self.long_chain(names)
         tree = self.expr_tree(depth, names)
         return self.emit_expr(tree)
 
